@@ -70,6 +70,7 @@ table! {
     c16::h_records,
     c16::h_io_error,
     c13::h_file,
+    c13::h_file_algs,
     c13::h_str,
     c13::h_patch,
     c13::h_patch_algs,
